@@ -1,5 +1,6 @@
 import Rbp.Model.Merkle
 import Rbp.Model.Run
+import Rbp.Proofs.Faults
 /-!
 # C09 — `--verify` accepts exactly the chains whose merkle roots and prev-hash links hold
 -/
@@ -43,6 +44,25 @@ theorem verify_iff (coin : Run.Coin) (idx : List (Nat × Wk.Rec)) (b : Csv.RBloc
         simp only [hm, ne_eq, not_true_eq_false, if_false, h0, hp hpos]
         by_cases hq : b.header.prev = p.hash <;> simp [hq, hpos]
     · simp [hm]
+
+/-- **a rejected block ends the run.**  With `--verify`, if heights `start..k-1` are served and accepted and the block read at
+    height `k` is rejected (`verifyBlock` returns an error: merkle root, genesis hash or prev-hash), the process exits 1,
+    reports height `k` and that error, and no final-named output exists -/
+theorem rejected_no_final (o : Run.Opts) (key : Option W.Bytes) (kvs : List (W.Bytes × W.Bytes)) (files : List Run.BlkFile)
+    (coin : Run.Coin) (ld : Run.Loaded) (hcoin : Run.coinOf o.coin = some coin) (hld : Run.loadIndex o kvs = .ok ld)
+    (hfiles : (files.filterMap fun f => (Run.parseBlkIndex f.name).map fun n => (n, f)) ≠ [])
+    (hkey : key ≠ some []) (k : Nat) (m : String) (hk1 : o.start ≤ k) (hk2 : k ≤ ld.maxH) (hv : o.verify = true)
+    (r : Wk.Rec) (f : Run.BlkFile) (sz : Nat) (b : Csv.RBlock)
+    (hl : Run.lookup ld.trimmed k = some r)
+    (hfile : ((files.filterMap fun f => (Run.parseBlkIndex f.name).map fun n => (n, f)).find? (·.1 == r.file)).map (·.2) = some f)
+    (hread : Run.readAt coin key f r.off = .ok (sz, b)) (hrej : Run.verifyBlock coin ld.trimmed b k = .err m)
+    (hs : ∀ j, o.start ≤ j → j < k →
+      Run.Servable coin o key (files.filterMap fun f => (Run.parseBlkIndex f.name).map fun n => (n, f)) ld.trimmed j) :
+    (Run.run o key kvs files).exit = 1 ∧ (Run.run o key kvs files).errHeight = some k ∧ (Run.run o key kvs files).msg = m ∧
+    (Run.run o key kvs files).files = [] := by
+  have := Run.run_fails_at o key kvs files coin ld hcoin hld hfiles hkey k m hk1 hk2
+    ⟨r, hl, Or.inr ⟨f, hfile, Or.inr ⟨sz, b, hread, hv, hrej⟩⟩⟩ hs
+  exact ⟨this.1, this.2.1, this.2.2.1, this.2.2.2.1⟩
 
 /-- genesis hashes compiled into the binary built from the working tree = the published ones -/
 theorem genesis_table_published :
